@@ -31,7 +31,7 @@ RULE = (
     "(replica, op kind, fault kind, graph shape class); non-trivial = at least one reorder/duplicate fault fired and >=2 replicas"
 )
 STATE_MEASURE = "(layer, #nodes, tree|cyclic, canonical degree sequence, #dups) for abstract; (layer, multiset of frame kinds, #replicas) for frames"
-PROBES = ["origin_checked", "route_replaced_by_shorter", "dup_link_delivered", "query_on_partial_graph", "disconnected_pair_reported", "builtin_graph_replayed", "frames_convergence_checked", "two_hop_oracle_checked", "frame_of_a_derived_orbit", "user_orientation_followed_both_ways", "local_axes_checked"]
+PROBES = ["origin_checked", "route_replaced_by_shorter", "dup_link_delivered", "query_on_partial_graph", "disconnected_pair_reported", "builtin_graph_replayed", "frames_convergence_checked", "two_hop_oracle_checked", "frame_of_a_derived_orbit", "user_orientation_followed_both_ways", "local_axes_checked", "origin_checked_at_the_epoch_of_a_tle_orbit"]
 REAL_VS_STUB = "real: beyond.utils.node.Node, frames/center/orient/stations registries, propagators; stub: none (EOP = zeros by policy 'pass'); model: BFS on explicit adjacency, two-hop composition through pristine nodes"
 ASSUMPTIONS = ["tree space on 8 nodes is sampled, not enumerated (thorough tier additionally sweeps all labelled trees on <=5 nodes with all orders)", "numpy/sgp4 are trusted"]
 SAMPLED_ONLY = []
@@ -204,6 +204,9 @@ def _gen_frames(rng, tier="quick"):
                 msg["frame"] = rng.choice(_PARENTS)  # a reference object given in an Earth-fixed frame (a precise ephemeris in ITRF) with QSW / TNW axes
             if msg["src"] in ("static", "ephem") and "cart" not in msg and msg["frame"] in _INERTIAL and rng.random() < 0.3:
                 msg["ref_form"] = rng.choice(["keplerian", "spherical", "keplerian_mean"])
+            if rng.random() < 0.12 and "cart" not in msg and msg["frame"] in _INERTIAL and not msg.get("ref_form"):
+                msg["src"] = "tle"  # a TLE-born orbit (mean elements in TLE form, SGP4): conversions are also made at its own epoch
+                msg["frame"] = "TEME"
             if msg["orient"] and rng.random() < 0.15:
                 msg["orient"] = rng.choice([msg["orient"].lower(), msg["orient"].capitalize()])  # the name of the local orbital frame in another case ("qsw", "Tnw")
             # an orbit derived from one that already gave its name to a frame (a copy of it, moved): a frame of its own under a new name
@@ -215,6 +218,11 @@ def _gen_frames(rng, tier="quick"):
                     msg["cart"] = b["cart"]
                     msg["orient"] = None
             msgs.append(msg)
+    # names that differ only by punctuation are different names
+    nm_ = [m for m in msgs if m["op"] in ("station", "orbframe") and not any(m["name"] in (x.get("deps") or []) or x.get("derive") == m["name"] or x.get("parent") == m["name"] or x.get("frame") == m["name"] for x in msgs)]
+    if len(nm_) >= 2 and rng.random() < 0.3:
+        a_, b_ = nm_[0], nm_[1]
+        a_["name"], b_["name"] = rng.choice([("Site-1", "Site 1"), ("SAT-1", "SAT.1"), ("Obj A", "Obj_A")])
     names = [m["name"] for m in msgs]
     per_rep = []
     for r in range(nrep):
@@ -549,6 +557,10 @@ def _ref_object(node, msg, kn, refs=None, lookup=None):
     Kepler = node.mod("beyond.propagators.kepler").Kepler
     if msg.get("cart") is not None:
         return node.StateVector(msg["cart"], date, "cartesian", msg["frame"])
+    if msg["src"] == "tle":
+        from sim import world as _w
+
+        return node.Tle(_w.tle_text("iss")).orbit()
     orb = node.Orbit(msg["kep"], date, "keplerian", msg["frame"], Kepler())
     if msg["src"] == "ephem":
         td = node.timedelta
@@ -726,6 +738,13 @@ def _run_frames(plan, ctx):
                     try:
                         at = np.array(st.copy(form="cartesian", frame=o["name"]), dtype=float)
                         scale = float(np.linalg.norm(np.array(st.copy(form="cartesian"), dtype=float)[:3]))
+                        if o.get("src") == "tle":
+                            # ... also at the very epoch of the orbit the frame is attached to
+                            st0 = ref.propagate(ref.date)
+                            at0 = np.array(st0.copy(form="cartesian", frame=o["name"]), dtype=float)
+                            if np.linalg.norm(at0[:3]) > np.linalg.norm(at[:3]):
+                                at = at0
+                            ctx.probe("origin_checked_at_the_epoch_of_a_tle_orbit")
                         err = None
                     except Exception as e:  # noqa
                         at, err = None, e
